@@ -658,4 +658,55 @@ func c06R6(r *Report) {
 		})
 	}
 	r.Sentinel("R6", n, 2)
+	// who may give a buffer back: PutBuffer receives only what GetBuffer handed out — the Data of a Piece message (every
+	// Piece payload, read or to be sent, comes from GetBuffer) or the result of a GetBuffer call in the same function.
+	// A chunk-sized slice of something else (a 16 KiB window into the torrent's info dictionary) would be handed out
+	// again as a read buffer and overwritten, while its owner still uses it.
+	gb := p.Func("protocol", "GetBuffer")
+	pb := p.Func("protocol", "PutBuffer")
+	if gb != nil && pb != nil {
+		calls, esc := p.callSitesOf(pb)
+		for _, e := range esc {
+			r.Fail("R6", "PutBuffer-escapes", e.Pos(), "PutBuffer is used as a function value")
+		}
+		nPut := 0
+		for _, cs := range calls {
+			c, ok := cs.(*ssa.Call)
+			if !ok || len(c.Call.Args) == 0 {
+				continue
+			}
+			nPut++
+			f := c.Parent()
+			r.Fn(f)
+			var owned func(v ssa.Value, d int) bool
+			owned = func(v ssa.Value, d int) bool {
+				if d > 6 || v == nil {
+					return false
+				}
+				switch x := v.(type) {
+				case *ssa.Call:
+					return x.Call.StaticCallee() == gb
+				case *ssa.Slice:
+					return owned(x.X, d+1)
+				case *ssa.Phi:
+					for _, e := range x.Edges {
+						if !isNilConst(e) && !owned(e, d+1) {
+							return false
+						}
+					}
+					return true
+				case *ssa.Extract:
+					// (data, err) := helper(…) of the package whose results come from GetBuffer: not followed
+					return false
+				}
+				if fv, base := loadedFieldAny(v); fv != nil && fv.Name() == "Data" && base != nil {
+					return typeIs(derefType(base.Type()), modPath+"/protocol", "Piece")
+				}
+				return false
+			}
+			r.Check(owned(c.Call.Args[0], 0), "R6", fname(f)+"/PutBuffer("+exprStr(strip(c.Call.Args[0]))+")-owned", c.Pos(), "the buffer given back to the pool came from GetBuffer (a Piece's Data, or a local GetBuffer result)",
+				"a slice that did not come from GetBuffer is put into the buffer pool: when it is chunk-sized it is handed out again as a read buffer and overwritten while its owner still uses it (the torrent's info dictionary, say), and several decoded Piece messages end up sharing one backing array")
+		}
+		r.Sentinel("R6.put", nPut, 3)
+	}
 }
